@@ -1872,6 +1872,26 @@ class Executor:
             return len(v.items)
         raise VCError("len of unsupported value")
 
+    def b_isinstance(self, e, st):
+        """decided from the static kind of the value (kinds come from the contract's parameter declarations): sequences are
+        list/tuple/np.ndarray, integers are int; anything else is outside the subset"""
+        v = st.deref(self.eval(e.args[0], st))
+        t = e.args[1]
+        names = [ast.unparse(x) for x in (t.elts if isinstance(t, ast.Tuple) else [t])]
+        seq_names = {"list", "tuple", "np.ndarray", "numpy.ndarray", "Sequence"}
+        int_names = {"int", "np.integer", "numbers.Integral"}
+        if isinstance(v, SeqV):
+            if any(n in seq_names for n in names):
+                return True
+            if all(n in int_names | {"float", "complex", "str", "bool"} for n in names):
+                return False
+        if isinstance(v, int) and not isinstance(v, bool) or (is_z3(v) and z3.is_int(v)):
+            if any(n in int_names for n in names):
+                return True
+            if all(n in seq_names | {"str", "dict", "set"} for n in names):
+                return False
+        raise VCError(f"isinstance({ast.unparse(e.args[0])}, {ast.unparse(t)}) not decidable from the declared kind")
+
     def b_range(self, e, st):
         a = [self.as_int(self.eval(x, st), st, e) for x in e.args]
         if len(a) == 1:
@@ -1967,9 +1987,6 @@ class Executor:
         if isinstance(v, SetV):
             return SetV(v.mem)
         raise VCError("set() of unsupported value")
-
-    def b_isinstance(self, e, st):
-        raise VCError("isinstance outside subset")
 
     def b_old(self, e, st):
         raise VCError("use old_<name>")
